@@ -31,7 +31,15 @@ order and never while a before-Deferred is unfired.  "Unfired" means "has not de
 also return Deferreds that are already fired but whose callback chain waits on an inner unfired Deferred, or
 that are fired and pause()d (delivered later by the schedule), or unfired instances of Deferred subclasses
 (DeferredList / gatherResults over an unfired Deferred, a trivial harness subclass); the gate must stay shut for
-those too.  fireEvent() is not re-entered (unspecified); Deferreds returned by during/after triggers are
+those too.
+Registered while waiting (wave 13): a during/after trigger registered from OUTSIDE any trigger while the event waits for a
+before-trigger's Deferred (fireEvent() has returned, every before-trigger has run, the during phase has not begun) is not in the
+unjudged class above: "only after every Deferred ... has fired, the during-triggers and then the after-triggers" -- it is a
+registered during/after trigger when that phase starts, so it must run in THIS firing, synchronously with the last Deferred, in
+registration order (key registered-while-waiting-not-run-in-this-firing).  A before-trigger registered in that window stays
+unjudged (the before phase is over).  The "waiting" family generates exactly that window on events that had ONLY before-triggers
+when fired (nothing else registered: the event looks empty while it waits), 1-3 registrations (and removals) per wait step.
+fireEvent() is not re-entered (unspecified); Deferreds returned by during/after triggers are
 ignored by the implementation and by the oracle.
 """
 import gc
@@ -45,7 +53,9 @@ RULE = ("random cases: 1-20 triggers (phase, behaviour: return / raise / Deferre
         "when it runs, also of its own / already-run handles in the during and after phases), duplicate registrations, removals before firing and while before-Deferreds are outstanding, Deferreds fired in random order with "
         "success or failure, optionally a second firing round with new triggers; plus every permutation x failure mask of 1-4 "
         "Deferred-returning before-triggers.  Each case on _ThreePhaseEvent and through ReactorBase.  Distinct = (api, case); "
-        "non-trivial = >= 3 triggers ran in >= 2 phases, or a Deferred gated the during phase.")
+        "non-trivial = >= 3 triggers ran in >= 2 phases, or a Deferred gated the during phase.  Waiting family: 1-5 before-triggers only "
+        "(>= 1 returning an undelivered Deferred), during/after/before triggers registered and removed at top level while the event "
+        "waits; the during/after ones must run when the last Deferred fires.")
 ASSUMPTIONS = ["trusted base: the three-list model in this module; Deferred/DeferredList (C01-C07) deliver callbacks"]
 SHARDS = {"quick": 4, "thorough": 16}
 FLOORS = {"trigger_runs": 20000, "order_checks": 20000, "gated_firings": 1000, "deferreds_fired_failed": 200, "raising_triggers": 1000,
@@ -56,7 +66,9 @@ FLOORS = {"trigger_runs": 20000, "order_checks": 20000, "gated_firings": 1000, "
           "added_while_firing_before": 300, "added_while_firing_during": 300, "added_while_firing_after": 300,
           "added_while_firing_ran_in_same_firing": 300, "added_while_firing_left_for_next_firing": 100, "flush_firings": 100,
           "gated_on_fired_but_chained_deferred": 300, "gated_on_fired_and_paused_deferred": 300,
-          "gated_on_deferred_subclass_instance": 300}
+          "gated_on_deferred_subclass_instance": 300,
+          "waiting_family_cases": 300, "registered_while_waiting": 1500, "registered_while_waiting_ran_in_this_firing": 1000,
+          "registered_while_waiting_on_event_with_only_before_triggers": 500}
 READY = True
 PHASES = ("before", "during", "after")
 
@@ -135,6 +147,19 @@ def gen_case(rng):
             "decisions": [rng.randrange(1000) for _ in range(60)]}
 
 
+def gen_waiting_case(rng):
+    """An event that has ONLY before-triggers when fired, at least one returning an undelivered Deferred; during/after (and
+    before) triggers are registered, and some removed again, at top level while it waits."""
+    n = rng.randrange(1, 6)
+    kinds = [rng.choice(["defer", "defer", "dsub", "dchain", "dpaused", "dnow", "raise", "ret", "ret"]) for _ in range(n)]
+    if not any(k in ("defer", "dsub", "dchain", "dpaused") for k in kinds):
+        kinds[rng.randrange(n)] = rng.choice(["defer", "defer", "dsub", "dchain", "dpaused"])
+    trigs = [{"id": i, "key": i, "phase": "before", "kind": k, "ok": rng.random() < 0.7, "rm": [], "odd": [], "adds": []}
+             for i, k in enumerate(kinds)]
+    return {"triggers": trigs, "round1": n, "pre_removals": [], "double_removals": False, "waiting_adds": rng.choice([1, 1, 2, 3]),
+            "decisions": [rng.randrange(1000) for _ in range(60)]}
+
+
 def perm_cases():
     """1-4 Deferred-returning before-triggers, fired in every order with every failure mask."""
     for k in range(1, 5):
@@ -168,6 +193,7 @@ class Monitor:
         self.key_of = {t["id"]: t.get("key", t["id"]) for t in case["triggers"]}  # duplicates share their original's key
         self.status = {}  # entry id -> "present" | "removed" | "ran"
         self.floating = set()  # registered while the event was firing: may run in this firing or must run in the next
+        self.late = set()  # during/after triggers registered at top level while the event waits on a before-Deferred: this firing
         self.next_id = len(case["triggers"])
         if api == "event":
             self.ev = base._ThreePhaseEvent()
@@ -315,6 +341,9 @@ class Monitor:
             return self.fail("registration-order", "%s-trigger %d ran before %d which was registered earlier and is still registered"
                              % (phase, tid, self.present[phase][0]), trigger=tid)
         self.stat("order_checks")
+        if tid in self.late:
+            self.late.discard(tid)
+            self.stat("registered_while_waiting_ran_in_this_firing")
         if tid in self.floating:
             self.floating.discard(tid)
             self.stat("added_while_firing_ran_in_same_firing")  # (which firing it joins: statement silent, unjudged)
@@ -338,6 +367,14 @@ class Monitor:
         self.do_add(eid)
         self.events.append(("added-while-firing", eid, phase, where))
         self.stat("added_while_firing_" + phase)
+        if where == "gated" and phase != "before" and self.outstanding and not self.in_fire_call:
+            # registered from outside any trigger while the event waits: the during phase has not begun, so this is one of the
+            # during/after triggers that run "only after every Deferred returned by a before-trigger has fired" -- in this firing
+            self.floating.discard(eid)
+            self.late.add(eid)
+            self.stat("registered_while_waiting")
+            if self.only_before_when_fired:
+                self.stat("registered_while_waiting_on_event_with_only_before_triggers")
 
     def do_add(self, eid):
         t = self.spec[eid]
@@ -389,6 +426,7 @@ class Monitor:
 
     def do_fire_event(self):
         self.ran = []
+        self.only_before_when_fired = bool(self.present["before"]) and not (self.present["during"] or self.present["after"])
         self.firing = True
         self.in_fire_call = True
         self.events.append(("fireEvent",))
@@ -427,6 +465,12 @@ class Monitor:
         if self.bad:
             return
         left = {p: self.solid(p) for p in PHASES if self.solid(p)}
+        waited = sorted(e for v in left.values() for e in v if e in self.late)
+        if waited:
+            return self.fail("registered-while-waiting-not-run-in-this-firing", "during/after triggers %s were registered while the "
+                             "event waited for a before-trigger's Deferred (during phase not begun); after %s every such Deferred "
+                             "has fired but they did not run (ran in this firing: %s)" % (waited, after, self.ran),
+                             triggers=waited, only_before_triggers_when_fired=self.only_before_when_fired)
         if left:
             return self.fail("trigger-not-run", "after %s the firing is complete in the model but triggers %s did not run" % (after, left))
         if self.floating:
@@ -480,6 +524,9 @@ class Monitor:
                 k = [o[0] for o in self.outstanding].index(want)
             else:
                 k = self.decide(16)
+                for _ in range(self.case.get("waiting_adds", 0)):
+                    # waiting family: registrations in every wait step, mostly during/after
+                    self.add_dynamic(("during", "after", "during", "after", "before")[self.decide(5)], "gated")
                 if self.decide(6) == 0:
                     self.add_dynamic(PHASES[self.decide(3)], "gated")
                 if self.decide(4) == 0:
@@ -526,6 +573,11 @@ def run(ctx):
                 for api in ("event", "reactor"):
                     run_case(ctx, case, api, cap)
                     ctx.count("permutation_cases")
+        for i in ctx.cases(1600, 40000):
+            case = gen_waiting_case(ctx.case_rng("waiting", i))
+            for api in ("event", "reactor"):
+                run_case(ctx, case, api, cap)
+            ctx.count("waiting_family_cases")
         for n, i in enumerate(ctx.cases(5000, 200000)):
             case = gen_case(ctx.case_rng("case", i))
             for api in ("event", "reactor"):
